@@ -69,6 +69,8 @@ let () =
         | "M" -> mode := 'M'; cap := ii 1; dn := ii 2; dump := (ii 3 = 1)
         | "S" -> mode := 'S'; cap := ii 1
         | "E" -> finish ()
+        | "Q" -> (* Q cap : the Fibonacci requirement dn_req and the modelled constructor dn_fixed *)
+          Printf.printf "Q %d %d %d\n" (ii 1) (int_of_nat (dn_req (z_of_int (ii 1)))) (int_of_nat (dn_fixed (z_of_int (ii 1))))
         | "i" -> ops := Insert (z_of_int (ii 1), z_of_int (ii 2)) :: !ops;
           if !mode = 'S' then outs := mk_out None (ii 3) (ii 4) :: !outs
         | "d" -> ops := Decrease (z_of_int (ii 1), z_of_int (ii 2)) :: !ops;
